@@ -60,6 +60,9 @@ def program_set(tier, seed, loop_else=False):
     progs += mprun.random_programs(nrand, seed, lo=2, hi=3 if quick else 4, maxdepth=3, loop_else=loop_else)
     progs += mprun.random_programs(nrand // 2, seed + 7, lo=2, hi=4, maxdepth=3, loop_else=loop_else, with_=False, calls=False,
                                    dele=False, exprstmt=False)      # exception / jump focused
+    if mp.CONTEXTS:     # lambdas kept in variables and called later, in and around compound statements
+        progs += mprun.random_programs(400 if quick else 3000, seed + 13, lo=2, hi=4, maxdepth=3, loop_else=loop_else, lam_rate=0.25,
+                                       try_=False, with_=False, dele=False, hnames=False)
     # very large random programs add cost, not shapes
     progs = [p for p in progs if len(p['nodes']) <= 45]
     return progs, tlcs
